@@ -62,7 +62,7 @@ def run(ctx):
         t.pop("_quoteful", None)
     ctx._phase("record", t0)
     t0 = time.time()
-    ctx.validate("websec", "Trace_Forms", "Trace_Forms.cfg", traces, sig_fn=_trace_sig)
+    ctx.validate("websec", "Trace_Forms", "Trace_Forms.cfg", traces, sig_fn=_trace_sig, shards=ctx.pick(6, None))
     ctx._phase("validate", t0)
     ctx.cov["rule"] = ("case = (abstract form, encoding) | (base body, single-byte mutation) | arbitrary short body | "
                        "(form, limit configuration), enumerated by TLC; plus seeded random forms; distinct = distinct cases")
